@@ -427,6 +427,7 @@ func normalizeComparisons(p *packages.Package) {
 	if info == nil {
 		return
 	}
+	normalizeNegations(p)
 	isConst := func(e ast.Expr) bool {
 		tv, ok := info.Types[e]
 		return ok && (tv.Value != nil || tv.IsNil())
@@ -449,6 +450,129 @@ func normalizeComparisons(p *packages.Package) {
 				be.X, be.Y, be.Op = be.Y, be.X, m
 			case !cx && !cy && (be.Op == token.GTR || be.Op == token.GEQ):
 				be.X, be.Y, be.Op = be.Y, be.X, m
+			}
+			return true
+		})
+	}
+}
+
+
+// normalizeNegations brings boolean conditions into one form before the
+// comparisons are oriented: negations are pushed inwards (!(a && b) becomes
+// !a || !b, !(a < b) becomes a >= b for integers, !!a becomes a; evaluation
+// order and short-circuiting are unchanged).  The branches of an if
+// statement are left where they are (exchanging them would put the syntax
+// tree out of source order, which position-based lookups rely on); rules
+// that interpret conditions handle both polarities.
+func normalizeNegations(p *packages.Package) {
+	info := p.TypesInfo
+	isBool := func(e ast.Expr) bool {
+		tv, ok := info.Types[e]
+		if !ok {
+			return false
+		}
+		b, ok := tv.Type.Underlying().(*types.Basic)
+		return ok && b.Info()&types.IsBoolean != 0 && tv.Value == nil
+	}
+	negOp := map[token.Token]token.Token{token.LSS: token.GEQ, token.GEQ: token.LSS, token.GTR: token.LEQ, token.LEQ: token.GTR, token.EQL: token.NEQ, token.NEQ: token.EQL}
+	isFloat := func(e ast.Expr) bool {
+		tv, ok := info.Types[e]
+		if !ok {
+			return true
+		}
+		b, ok := tv.Type.Underlying().(*types.Basic)
+		return !ok || b.Info()&types.IsFloat != 0 || b.Info()&types.IsComplex != 0
+	}
+	boolType := types.Typ[types.Bool]
+	record := func(e ast.Expr) ast.Expr {
+		if _, ok := info.Types[e]; !ok {
+			info.Types[e] = types.TypeAndValue{Type: boolType}
+		}
+		return e
+	}
+	var nnf func(e ast.Expr) ast.Expr
+	var neg func(e ast.Expr) ast.Expr
+	// neg returns an expression equivalent to !e with the negation pushed inwards
+	neg = func(e ast.Expr) ast.Expr {
+		switch x := e.(type) {
+		case *ast.ParenExpr:
+			return neg(x.X)
+		case *ast.UnaryExpr:
+			if x.Op == token.NOT {
+				return nnf(x.X)
+			}
+		case *ast.BinaryExpr:
+			switch x.Op {
+			case token.LAND, token.LOR:
+				op := token.LOR
+				if x.Op == token.LOR {
+					op = token.LAND
+				}
+				return record(&ast.BinaryExpr{X: neg(x.X), OpPos: x.OpPos, Op: op, Y: neg(x.Y)})
+			case token.EQL, token.NEQ:
+				return record(&ast.BinaryExpr{X: x.X, OpPos: x.OpPos, Op: negOp[x.Op], Y: x.Y})
+			case token.LSS, token.LEQ, token.GTR, token.GEQ:
+				// not for floating point: !(a < b) is not a >= b when a or b is NaN
+				if !isFloat(x.X) && !isFloat(x.Y) {
+					return record(&ast.BinaryExpr{X: x.X, OpPos: x.OpPos, Op: negOp[x.Op], Y: x.Y})
+				}
+			}
+		}
+		return record(&ast.UnaryExpr{OpPos: e.Pos(), Op: token.NOT, X: e})
+	}
+	nnf = func(e ast.Expr) ast.Expr {
+		switch x := e.(type) {
+		case *ast.ParenExpr:
+			// parentheses carry no meaning in the tree
+			if isBool(x.X) {
+				return nnf(x.X)
+			}
+			return x
+		case *ast.UnaryExpr:
+			if x.Op == token.NOT {
+				inner := x.X
+				for {
+					pe, ok := inner.(*ast.ParenExpr)
+					if !ok {
+						break
+					}
+					inner = pe.X
+				}
+				switch y := inner.(type) {
+				case *ast.UnaryExpr:
+					if y.Op == token.NOT {
+						return nnf(y.X)
+					}
+				case *ast.BinaryExpr:
+					switch y.Op {
+					case token.LAND, token.LOR, token.EQL, token.NEQ:
+						return neg(y)
+					case token.LSS, token.LEQ, token.GTR, token.GEQ:
+						if !isFloat(y.X) && !isFloat(y.Y) {
+							return neg(y)
+						}
+					}
+				}
+			}
+			return x
+		case *ast.BinaryExpr:
+			if x.Op == token.LAND || x.Op == token.LOR {
+				x.X = nnf(x.X)
+				x.Y = nnf(x.Y)
+			}
+			return x
+		}
+		return e
+	}
+	for _, f := range p.Syntax {
+		ast.Inspect(f, func(n ast.Node) bool {
+			switch x := n.(type) {
+			case *ast.IfStmt:
+				x.Cond = nnf(x.Cond)
+			case *ast.ForStmt:
+				if x.Cond != nil {
+					x.Cond = nnf(x.Cond)
+				}
 			}
 			return true
 		})
